@@ -243,12 +243,7 @@ func runC11(e *Engine, g G, o RunOpt) RunInfo {
 				e.Sleep(time.Duration(sc.Client.ConnectTimeout+3) * time.Second)
 				continue
 			}
-			if conn.Established == "bound" && !conn.Enabled {
-				// stanzas received on a session that is not the stream-managed one
-				if c.Inbound > 0 {
-					countKnown = false
-				}
-			}
+			// (stanzas received on a session that is not the stream-managed one are not counted for it: see below)
 			if c.MidAck && conn.Enabled && err == nil {
 				// the server acknowledges everything it has received on the session so far ...
 				e.Sleep(200 * time.Millisecond)
@@ -322,7 +317,7 @@ func runC11(e *Engine, g G, o RunOpt) RunInfo {
 				sessPrev += clientStanzasOnSession(conn)
 			}
 			for _, end := range ends {
-				if base+int64(end) <= cli.TotalRead {
+				if base+int64(end) <= cli.TotalRead && conn.Enabled {
 					modelCount++
 				}
 			}
